@@ -56,7 +56,7 @@ def run_impl(exes, cases):
         idx = [i for i, c in enumerate(cases) if (c.split()[0] == "bulk") == (kind == "bulk")]
         for k in range(0, len(idx), 30):
             part = idx[k:k + 30]
-            if hung >= 3 or abnormal >= 12:
+            if hung >= 2 or abnormal >= 12:
                 for i in part:
                     res[i] = "skipped"
                 continue
